@@ -694,4 +694,43 @@ Proof.
       apply D; auto; unfold need_fs; lia.
 Qed.
 
+(* the functions of a module, laid out one behind the other, are where their handles and labels say *)
+Lemma placed9_intro : forall fs i pre post,
+  p_code P = encode (pre ++ code_fns9 T FT (bytes pre) fs ++ post) ->
+  labels_ok9 (p_labels P) i (bases9 T FT (bytes pre) fs) ->
+  (forall j n f, nth_error fs j = Some (n, f) ->
+     sm_find n FT = Some (handle_from_u64 (i + N.of_nat j), N.of_nat (length (f_args f)) mod two32)) ->
+  (forall n f, In (n, f) fs -> names_ok (fn_gnames9 f)) ->
+  placed9 fs.
+Proof.
+  induction fs as [|[n f] r IH]; intros i pre post Hcode Hlab Hft Hnm; [exact I|].
+  cbn [code_fns9 bases9 labels_ok9 placed9] in *. cbv zeta in *.
+  set (cf := code_fn9 T FT (bytes pre) f) in *. destruct Hlab as [Hl Hlr].
+  split.
+  - exists (handle_from_u64 i), pre.
+    split; [rewrite <- (N.add_0_r i); exact (Hft 0%nat n f eq_refl)|].
+    split; [rewrite <- two32_eq; apply handle_from_u64_lt|].
+    split; [rewrite assoc_nm_find; exact Hl|].
+    split; [exists (code_fns9 T FT (bytes pre + bytes cf) r ++ post); rewrite Hcode, <- !app_assoc; reflexivity|].
+    apply (Hnm n f). left. reflexivity.
+  - apply (IH (i + 1) (pre ++ cf) post).
+    + rewrite Hcode, bytes_app, <- !app_assoc. reflexivity.
+    + rewrite bytes_app. exact Hlr.
+    + intros j n' f' Hj. replace (i + 1 + N.of_nat j) with (i + N.of_nat (S j)) by lia. exact (Hft (S j) n' f' Hj).
+    + intros n' f' Hin. apply (Hnm n' f'). right. exact Hin.
+Qed.
+
+(* the dispatch loop at a failing configuration *)
+Lemma loop_fail9 (reenter : N -> state -> rres) fuel c s rem :
+  fail9 c -> St cap (calls9 c) (heap9 c) None [] s (stk9 c) (gl9 c) rem -> 1 < rem ->
+  exists nm s', loop F bld P reenter (S fuel) (ip9 c) s = Vm.RErr (EVarNotFound nm) (ip9 c) s' /\ st_globals s' = gl9 c.
+Proof.
+  intros (nm & Hlt & H) HS Hrem. exists nm. cbn [loop].
+  assert (Hcl : (code_len P <=? ip9 c) = false) by (apply N.leb_gt; exact Hlt). rewrite Hcl.
+  assert (Hr : st_rem s = rem) by (destruct HS as (_ & _ & _ & _ & _ & _ & _ & _ & Hr); exact Hr).
+  rewrite Hr. cbn [st_rem set_rem].
+  assert (Hz : (N.pred rem =? 0) = false) by (apply N.eqb_neq; lia). rewrite Hz.
+  destruct (H reenter _ _ (St_tick (N.pred rem) HS)) as (ip' & s' & E & Hg). rewrite E. eauto.
+Qed.
+
 End Run9b.
